@@ -239,7 +239,7 @@ func charCellEvents(id int, sc Scenario, seed int64, rp *spg.CharRecipe) (events
 		}
 		// determinism: same index path, other representatives and chunking
 		e2 := *e
-		e2.Chunk = [][]int{{1}, {2, 1}, {3}, {1, 3}}[e.Rng.Intn(4)]
+		e2.Chunk = [][]int{{1}, {2, 1}, {3}, {1, 3}, {-1, 2, -1, 2}, {-1, -1, -1, -1, 4}, {1, -1, 1, -1, 1, 1}}[e.Rng.Intn(7)]
 		var res2 GenRes
 		out2 := e2.Run(plan, body(&res2))
 		if out2.Panic != nil {
